@@ -302,7 +302,7 @@ auto kll_sketch<T, C, A>::get_CDF(const T* split_points, uint32_t size, bool inc
 template<typename T, typename C, typename A>
 auto kll_sketch<T, C, A>::get_quantile(double rank, bool inclusive) const -> quantile_return_type {
   if (is_empty()) throw std::runtime_error("operation is undefined for an empty sketch");
-  if ((rank < 0.0) || (rank > 1.0)) {
+  if (!(rank >= 0.0 && rank <= 1.0)) { // written so that NaN is rejected too
     throw std::invalid_argument("normalized rank cannot be less than zero or greater than 1.0");
   }
   // may have a side effect of sorting level zero if needed
